@@ -1148,18 +1148,24 @@ def run(ctx: core.Ctx) -> None:
 # ---------------------------------------------------------------------------------------------
 
 def replay(case: dict) -> list:
-    acc = core.Acc()
-    base = tempfile.mkdtemp(prefix='verif-C13-replay-', dir='/dev/shm')
-    try:
-        wd = os.path.join(base, 'arch')
-        src = os.path.join(base, 'src')
-        os.makedirs(wd)
-        os.makedirs(os.path.join(src, 'sub'))
-        with open(os.path.join(src, 'sub', 'f.txt'), 'wb') as f:
-            f.write(b'folder file')
-        cfg = tuple(case['cfg'])
-        hist = [tuple(o) for o in case['hist']]
-        Runner(acc, wd, src).run(cfg, hist, check_from=0)
-    finally:
-        shutil.rmtree(base, ignore_errors=True)
+    # observing is not free of effects on a lazily loading archive object: the oracle reads every file, so a history
+    # replayed with the oracle after EVERY step is a different history from the explored one (oracle after the last step).
+    # Both are executed: the explored form first, then the every-step form.
+    for check_from in (None, 0):
+        acc = core.Acc()
+        base = tempfile.mkdtemp(prefix='verif-C13-replay-', dir='/dev/shm')
+        try:
+            wd = os.path.join(base, 'arch')
+            src = os.path.join(base, 'src')
+            os.makedirs(wd)
+            os.makedirs(os.path.join(src, 'sub'))
+            with open(os.path.join(src, 'sub', 'f.txt'), 'wb') as f:
+                f.write(b'folder file')
+            cfg = tuple(case['cfg'])
+            hist = [tuple(o) for o in case['hist']]
+            Runner(acc, wd, src).run(cfg, hist, check_from=check_from)
+        finally:
+            shutil.rmtree(base, ignore_errors=True)
+        if acc.fail_counts:
+            break
     return acc.all_failures()
